@@ -4058,6 +4058,13 @@ def _walk_working_dir_paths(
             if dirpath != basepath:
                 continue
 
+        # os.walk lists a symlink to a directory among the directories; to
+        # git it is a file (the link), so report it as one.
+        for dirname in list(dirnames):
+            if os.path.islink(os.path.join(dirpath, dirname)):  # type: ignore[call-overload]
+                dirnames.remove(dirname)
+                filenames.append(dirname)
+
         if precompose_unicode and isinstance(dirpath, str):
             dirpath = _precompose_unicode_path(dirpath)
             dirnames[:] = [
